@@ -411,6 +411,23 @@ def add_bystander(rng, world, prob=0.25):
     return by
 
 
+def bystander_program(rng, world, by, nb):
+    """What the owner does in the second pool: supplies every token as collateral at the start, borrows a little, and looks
+    at its risk figures at the head of most bars - BEFORE anything is asked of the pool under test in that bar, so that
+    whatever the first pool to evaluate a token leaves behind in shared places is there when the second pool evaluates it."""
+    toks = list(by["tokens"])
+    ops = []
+    for t in toks:
+        amt = format(Decimal(1000) / Decimal(world["prices"][t][0]), ".6f")
+        world["assets"][t] = str(Decimal(world["assets"].get(t, "0")) + Decimal(amt))
+        ops.append({"bar": -1, "phase": "initialize", "op": "aave.supply", "m": by["name"], "a": {"token": t, "amount": amt, "collateral": True}})
+    ops.append({"bar": 0, "phase": "before_bar", "op": "aave.borrow", "m": by["name"], "a": {"token": rng.choice(toks), "amount": {"f": "helper_max_borrow", "x": "0.1"}}})
+    for b in range(nb):
+        if rng.random() < 0.7:
+            ops.append({"bar": b, "phase": "before_bar", "op": "aave.read", "m": by["name"], "a": {"view": rng.choice(["health_factor", "get_market_balance", "liquidation_threshold", "max_ltv"])}})
+    return ops
+
+
 def market_of(world, name="aave0"):
     return next(m for m in world["markets"] if m.get("name") == name)
 
